@@ -936,12 +936,13 @@ def rot_params(angle):
 
 
 def hex_normals(rotate):
-    """(sin theta, cos theta) of the six normals, computed as lentil.hexagon does"""
+    """(sin theta, cos theta) of the six normals as lentil.hexagon uses them"""
     out = []
-    for n in range(6):
+    for n in range(3):
         theta = n * np.pi / 3 if rotate else n * np.pi / 3 + np.pi / 6
         out.append((float(np.sin(theta)), float(np.cos(theta))))
-    return out
+    # since fix 41858ae the code evaluates three normals and tests |rho|: the other three are the exact negatives
+    return out + [(-sn, -cs) for sn, cs in out]
 
 
 def decode(c, ints):
@@ -1576,17 +1577,23 @@ def shape_oracle(c, impl, strict=True):
                 return x == y
             if c['aa']:
                 return abs(x - y) <= 1e-12
+            # binary hexagon: since fix 41858ae (three normals, |rho|) the half-turn is exact in floats; under the
+            # mirrors only a sample exactly on the outline could differ (cos(pi/2) is 6e-17, not 0), and with the
+            # half-turn exact the only such samples, the two vertices, agree: any mismatch is reported
             if x == y:
                 return True
             if mg[i][j] <= 1e-9 or mg[i2][j2] <= 1e-9:
                 ties.append(((i - ci, j - cj), x, (i2 - ci, j2 - cj), y))
-                return True
+                return not strict
             return False
         for i in range(n):
             for j in range(m):
                 i2, j2 = 2 * ci - i, 2 * cj - j
-                if 0 <= i2 < n and 0 <= j2 < m and not same(a[i][j], a[i2][j2], i, j, i2, j2):
-                    return f'{op}: not invariant under the half-turn about the origin sample: ({i},{j}) vs ({i2},{j2})'
+                # exact for every shape, antialiased or not: (-r)*s + (-c)*co == -(r*s + c*co) in floats, and every
+                # drawing depends on the sign of its coordinates only through |.| or squares (hexagon since 41858ae)
+                if 0 <= i2 < n and 0 <= j2 < m and a[i][j] != a[i2][j2]:
+                    return (f'{op}: not invariant under the half-turn about the origin sample: ({i},{j}) = {a[i][j]!r} vs '
+                            f'({i2},{j2}) = {a[i2][j2]!r}')
                 if unrot:
                     if 0 <= i2 < n and not same(a[i][j], a[i2][j], i, j, i2, j):
                         return f'{op}: not invariant under the row mirror: ({i},{j}) vs ({i2},{j})'
@@ -1598,27 +1605,6 @@ def shape_oracle(c, impl, strict=True):
                 f'to the origin sample) is {x!r}, its image at {q} is {y!r}; both lie exactly on the hexagon outline '
                 f'(a vertex), where the six float normals break the tie differently')
     return None
-
-
-def vertex_tie_only(c, impl):
-    """the ONLY asymmetry of this binary, centred, rotated hexagon of integer radius R is the pair of vertex samples
-    (-R, 0) / (+R, 0) (relative to the origin sample), and everything else the oracle checks holds"""
-    if not (c['op'] == 'hexagon' and not c['aa'] and c['rotate'] and c['shift'] == ['0', '0'] and 'err' not in impl):
-        return False
-    R = Fraction(c['radius'])
-    if R.denominator != 1 or R <= 0 or shape_oracle(c, impl, strict=False) is not None:
-        return False
-    a = impl['arr']
-    n, m = c['shape']
-    ci, cj = n // 2, m // 2
-    R = int(R)
-    bad = set()
-    for i in range(n):
-        for j in range(m):
-            for i2, j2 in ((2 * ci - i, 2 * cj - j), (2 * ci - i, j), (i, 2 * cj - j)):
-                if 0 <= i2 < n and 0 <= j2 < m and a[i][j] != a[i2][j2]:
-                    bad.add(frozenset(((i - ci, j - cj), (i2 - ci, j2 - cj))))
-    return bad == {frozenset(((-R, 0), (R, 0)))}
 
 
 def deepen_oracle(c, impl):
@@ -1747,8 +1733,6 @@ def hexseg_oracle(c, impl):
 
 def known_match(f, c, impl):
     c = scaled(c)
-    if f['id'] == 'C20-hexagon-vertex-float-tie':
-        return vertex_tie_only(c, impl)
     if f['id'] == 'C20-window-slice-cube-axes':
         # exactly: a cube, slice= given, and the result is the numpy slice of the LEADING two axes
         if not (c['op'] == 'window' and is3(c['a']) and c['slice'] is not None and 'err' not in impl):
@@ -1768,10 +1752,6 @@ def known_match(f, c, impl):
 
 
 def replay_known(f):
-    if f['id'] == 'C20-hexagon-vertex-float-tie':
-        lentil = C.import_lentil()
-        a = lentil.hexagon((3, 3), 1, rotate=True, antialias=False)
-        return a[0, 1] != a[2, 1]
     if f['id'] == 'C20-window-slice-cube-axes':
         lentil = C.import_lentil()
         out = lentil.window(np.arange(24.0).reshape(2, 3, 4), slice=(0, 1, 0, 2))
